@@ -36,7 +36,15 @@ type riObs struct {
 	loaded    bool
 }
 
+// qStatus: one status change of a queue worker (TaskQueue.SetStatus).
+type qStatus struct {
+	Seq    int64
+	At     time.Duration
+	Status string
+}
+
 type Observer struct {
+	QStatus   map[string][]qStatus // per queue name
 	StopSeq   int64 // seq at which TaskQueueSet.WaitStopWithTimeout was entered (= TaskQueues.Stop() returned)
 	StopAt    time.Duration
 	e         *Env
@@ -46,7 +54,7 @@ type Observer struct {
 }
 
 func NewObserver(e *Env) *Observer {
-	o := &Observer{e: e, ris: map[any]*riObs{}}
+	o := &Observer{e: e, ris: map[any]*riObs{}, QStatus: map[string][]qStatus{}}
 	e.S.Observer = o.observe
 	return o
 }
@@ -68,6 +76,9 @@ func (o *Observer) observe(name string, args ...any) {
 			o.StopSeq = o.e.Seq()
 			o.StopAt = o.e.Since()
 		}
+	case "tq.status":
+		qn := fmt.Sprint(args[0])
+		o.QStatus[qn] = append(o.QStatus[qn], qStatus{Seq: o.e.Seq(), At: o.e.Since(), Status: fmt.Sprint(args[1])})
 	case "ri.load":
 		r := o.ri(args[0], args[1], args[2], args[3])
 		o.pendingL1 = r
